@@ -1,0 +1,11 @@
+//go:build verif
+
+package plush
+
+import "github.com/gobuffalo/plush/v5/ast"
+
+// VerifProgram exposes the parsed program read-only to the verification
+// harness (build tag verif) so it can snapshot the tree around Exec.
+func (t *Template) VerifProgram() *ast.Program {
+	return t.program
+}
